@@ -1,5 +1,6 @@
 CONSTANTS
   NK = 4
+  SplitBigRecords = FALSE
 SPECIFICATION Spec
 POSTCONDITION AllConsumed
 CHECK_DEADLOCK FALSE
